@@ -126,6 +126,8 @@ def shapes(fmt):
     # material properties: text and numbers, a property name that contains the marker the flat formats prefix them with
     mmeta = dict(meta, material={'name': 'pgv_rt_mat3', 'density': 1.5, 'batch': 'b7', 'raw_material_source': 'mine', 'subsample_id': 'a1'})
     yield "shape:material_properties", pygaps.PointIsotherm(pressure=[0.1, 0.2, 0.4], loading=[1.0, 1.5, 2.0], **mmeta)
+    # metadata keys that start with an underscore (document-database style _id / _rev) are metadata like any other
+    yield "shape:metadata_keys_with_leading_underscore", pygaps.PointIsotherm(pressure=[0.1, 0.2, 0.4], loading=[1.0, 1.5, 2.0], _id='5f1e9c0b7a', _rev=3.5, **meta)
     # whole numbers with a sign among the metadata (the Excel reader returns every number as a float: listed finding)
     if fmt != 'excel':
         yield "shape:metadata_negative_integer", pygaps.PointIsotherm(pressure=[0.1, 0.2, 0.4], loading=[1.0, 1.5, 2.0], cycle=-5, offset=-2.5, **meta)
@@ -232,7 +234,8 @@ def compare(a, b, fmt):
     diffs = []
     if type(a) is not type(b):
         return [f"class {type(b).__name__} != {type(a).__name__}"]
-    da, db = a.to_dict(), b.to_dict()
+    # (the objects' own metadata next to their dictionary export: the export is part of what is being checked)
+    da, db = {**dict(getattr(a, 'properties', {}) or {}), **a.to_dict()}, {**dict(getattr(b, 'properties', {}) or {}), **b.to_dict()}
     for k in sorted(set(da) | set(db)):
         va, vb = da.get(k, '<absent>'), db.get(k, '<absent>')
         if fmt != 'json' and isinstance(va, float) and isinstance(vb, (int, float)) and not isinstance(vb, bool):
